@@ -364,13 +364,27 @@ def g_init(E, v):
     _set(G, "posE", z3.Store(_arr(G, "posE"), to_z3(v["root"], "int"), 0))
 
 
+def _assigns_result_of(callback, target):
+    """anchor: a simple assignment to `target` (unparsed text) whose right-hand side calls the callback `callback`; the names of
+    the other locals in it (`pre`, `children`) are free to change"""
+    def f(txt):
+        try:
+            st = ast.parse(txt).body[0]
+        except SyntaxError:
+            return False
+        return (isinstance(st, ast.Assign) and len(st.targets) == 1 and ast.unparse(st.targets[0]) == target
+                and any(isinstance(c, ast.Call) and isinstance(c.func, ast.Name) and c.func.id == callback for c in ast.walk(st.value)))
+
+    return f
+
+
 GHOST = [
     ("stack: list[tuple[int, bool]] = [(root, True)]", g_init),
     ("idx, is_enter = stack.pop()", g_iteration_starts),
-    ("cur = enter(idx, pre) if enter is not None else None", g_enter),
+    (_assigns_result_of("enter", "cur"), g_enter),
     ("stack.append((idx, False))", g_push_leave),
     ("params[child] = cur", g_push_child),
-    ("vals[idx] = leave(idx, children) if leave is not None else None", g_leave),
+    (_assigns_result_of("leave", "vals[idx]"), g_leave),
 ]
 
 
